@@ -45,6 +45,9 @@ RULE = (
     "traffic needs; valid small and large responses run under the same budgets first), and a "
     "follow-up valid request on the SAME client succeeds. Distinct by "
     "(seed, fault kind, position)."
+    " Discovery replies also get field-level edits (boots/time up to 2^2000, field lengths 0."
+    ".60000, header values, flags, counters, binding counts); the follow-up request runs unde"
+    "r a step budget of its own."
 )
 ASSUMPTIONS = [
     "steps = sys.monitoring JUMP|PY_START|PY_RESUME|PY_THROW events inside puresnmp, puresnmp_plugins and x690 (every loop iteration takes a backward jump, every call a PY_START)",
